@@ -456,10 +456,10 @@ impl Check for C20 {
             Ok(o) => o,
             Err((kind, msg)) => {
                 // classification for the known findings: which construct is in the file
-                let disc = if has(&|m| m.n_langs > 1) {
-                    "file_with_two_languages"
-                } else if !suffix.is_empty() {
+                let disc = if !suffix.is_empty() {
                     "file_with_suffix"
+                } else if has(&|m| m.n_langs > 1) {
+                    "file_with_two_languages"
                 } else if has(&|m| m.skip) {
                     "file_with_skip"
                 } else if has(&|m| m.other_platform) {
@@ -536,10 +536,15 @@ impl Check for C20 {
         // ---- a second update is the identity
         let (_r3, _, _) = run(true);
         let updated2 = std::fs::read(&file).unwrap_or_default();
+        if let Ok(p) = std::env::var("VERIF_DUMP_SRC") {
+            let _ = std::fs::write(format!("{p}.0"), &original);
+            let _ = std::fs::write(format!("{p}.1"), &updated);
+            let _ = std::fs::write(format!("{p}.2"), &updated2);
+        }
         if updated2 != updated {
             let k = updated.iter().zip(updated2.iter()).take_while(|(a, b)| a == b).count();
             let quoted = updated.iter().any(|b| *b == b'\'' || *b == b'"');
-            let disc = if has(&|m| m.n_langs > 1) { "file_with_two_languages" } else if !suffix.is_empty() { "file_with_suffix" } else if quoted { "quote_in_expected_output" } else if has(&|m| m.skip || m.other_platform) { "file_with_skip_or_platform" } else if has(&|m| m.n_langs > 1) { "file_with_two_languages" } else if has(&|m| m.cst) { "file_with_cst" } else { "plain" };
+            let disc = if !suffix.is_empty() { "file_with_suffix" } else if has(&|m| m.n_langs > 1) { "file_with_two_languages" } else if quoted { "quote_in_expected_output" } else if has(&|m| m.skip || m.other_platform) { "file_with_skip_or_platform" } else if has(&|m| m.n_langs > 1) { "file_with_two_languages" } else if has(&|m| m.cst) { "file_with_cst" } else { "plain" };
             ctx.fail(format!("C20:second_update_differs:{disc}"), format!("first difference at byte {k}\nafter first update:\n{}\nafter second update:\n{}", show_bytes(&updated, 900), show_bytes(&updated2, 900)));
         }
         ctx.out.nontrivial = tests.len() >= 2 && (corrected || delim_like);
